@@ -277,8 +277,10 @@ def main(prop, mod, tier, seed):
 
 
 def match_finding(findings, unit, witness):
+    """a replayed violation is attributed to a listed finding only if the finding names this very unit and, where it
+    gives one, the same witness key; region-based findings are excluded from the proof instead and never match here"""
     for f in findings:
-        if f.get('unit') and f['unit'] != unit.name and not unit.name.startswith(f['unit']):
+        if f.get('region') or not f.get('unit') or f['unit'] != unit.name:
             continue
         key = f.get('witness_key')
         if key is None or witness.get('key') == key:
